@@ -143,6 +143,7 @@ def step (_ : Unit) (line : String) : Unit × String :=
     | ["doc", _, _, _] => "-"
     | ["reenc"] => "-"
     | ["tamper", _, _] => "-"
+    | ["forged", _, _, _] => "-"
     | "create" :: _ => "-"
     | _ => "bad-op"
   ((), out)
